@@ -66,7 +66,7 @@ QueryWellTimed(now) == now > stamp /\ now >= clock
 Same(a, b) == a.id = b.id /\ a.size = b.size
 
 (* do the zones of an ended version allow comparing it with the current one *)
-Comparable(view) == kind = "inst" /\ za => Zones(view) = Zones(cur)
+Comparable(view) == kind = "inst" => ComparableZones(view, cur, za)
 
 (* shards of (id, size) that were current at some moment of [now - L, now] *)
 Past(now, L, q, shards) ==
